@@ -18,6 +18,9 @@ from .astq import FUNC_TYPES, ast_copy
 
 SYN = "__InlineReturn"
 
+# pinned helpers that are transparent for the rules: the rules are written against the spliced form, so that inlining them by hand changes nothing
+ALWAYS_INLINE = {"core.objects:ConfigInformation.validate_and_seal"}
+
 
 def is_synthetic_handler(h: ast.ExceptHandler) -> bool:
     return isinstance(h.type, ast.Name) and h.type.id.startswith(SYN)
@@ -49,7 +52,7 @@ class Inliner:
     def candidates(self) -> Dict[str, object]:
         out = {}
         for key, f in self.tree.funcs.items():
-            if f.module.is_test() or key in self.pinned or f.parent is not None:
+            if f.module.is_test() or (key in self.pinned and key not in ALWAYS_INLINE) or f.parent is not None:
                 continue
             n = f.node
             if n.name.startswith("__") and n.name.endswith("__"):
@@ -93,6 +96,22 @@ class Inliner:
                 if g.cls is None and isinstance(n, ast.Name) and n.id == name and isinstance(n.ctx, ast.Load) and not (
                         isinstance(getattr(n, "_parent", None), ast.Call) and n._parent.func is n):
                     cands.pop(key, None)
+        # recursive helpers (directly or through other new helpers) cannot be spliced
+        def calls_of(g):
+            return {h.key for c in ast.walk(g.node) if isinstance(c, ast.Call) for h in [self._callee(c, g, cands)] if h is not None}
+
+        graph = {k: calls_of(g) for k, g in cands.items()}
+        for k in list(cands):
+            seen, stack = set(), list(graph.get(k, ()))
+            while stack:
+                x = stack.pop()
+                if x == k:
+                    cands.pop(k, None)
+                    break
+                if x in seen:
+                    continue
+                seen.add(x)
+                stack.extend(graph.get(x, ()))
         remaining_refs = {k: 0 for k in cands}
         for _ in range(3):
             changed = False
@@ -382,6 +401,8 @@ class Inliner:
                 return [asg, rs]
 
             def visit_FunctionDef(self, n):
+                if getattr(n, "name", None) in rename:
+                    n.name = rename[n.name]
                 return n  # nested definitions keep their own returns (closure variables are not renamed)
 
             visit_AsyncFunctionDef = visit_FunctionDef
